@@ -136,7 +136,7 @@ func emitRetry(o retryObs) string {
 	}
 	c := map[string]string{"cancel": "CCanceled", "deadline": "CDeadline"}[o.Kind]
 	ls = append(ls, "RCancel "+c)
-	return fmt.Sprintf("RetryCase %s %s %s %s", max, coqLabels(ls), call, hk.CoqNat(int(o.SeenEnd)))
+	return fmt.Sprintf("RetryCase %s %s %s %s %s", hk.CoqBool(o.Spec.Zero), max, coqLabels(ls), call, hk.CoqNat(int(o.SeenEnd)))
 }
 
 func judgeRetry(r *hk.Run, o retryObs) {
